@@ -583,6 +583,7 @@ package dmap
 //@   flag skip nil
 //@   requires #routing [C07]: dm != nil && dm.s != nil && dm.s.rt != nil && e != nil && dm.s.parts() && dm.s.primary.count > 0
 //@   atcall locker\.Locker\)\.Lock$ requires #read_modify_write_runs_on_the_partition_owner [C07]: dm.ownsKeyOf(e)
+//@   atcall dmap\.DMap\)\.(Get|put)$ requires #inside_the_keys_critical_section [C07]: dm.s.locker.held[atomicKey]
 
 //@ func (dm *DMap) atomicIncrByFloat(e *env, delta float64) (float64, error)
 //@   props C07
@@ -590,11 +591,13 @@ package dmap
 //@   flag skip nil
 //@   requires #routing [C07]: dm != nil && dm.s != nil && dm.s.rt != nil && e != nil && dm.s.parts() && dm.s.primary.count > 0
 //@   atcall locker\.Locker\)\.Lock$ requires #read_modify_write_runs_on_the_partition_owner [C07]: dm.ownsKeyOf(e)
+//@   atcall dmap\.DMap\)\.(Get|put)$ requires #inside_the_keys_critical_section [C07]: dm.s.locker.held[atomicKey]
 
 //@ func (dm *DMap) atomicIncrDecr(cmd string, e *env, delta int) (int, error)
 //@   props C09 C07
 //@   requires #routing [C07]: dm != nil && dm.s != nil && dm.s.rt != nil && dm.s.parts() && dm.s.primary.count > 0
 //@   atcall locker\.Locker\)\.Lock$ requires #read_modify_write_runs_on_the_partition_owner [C07]: dm.ownsKeyOf(e)
+//@   atcall dmap\.DMap\)\.(loadCurrentAtomicInt|put)$ requires #inside_the_keys_critical_section [C07]: dm.s.locker.held[atomicKey]
 //@   flag clock
 //@   flag wired 3
 //@   flag skip nil
